@@ -506,7 +506,7 @@ Proof.
   rewrite last_app_ne by exact Ho2.
   destruct D as [D|D]; [left; exact D|right]. split; [|exact D].
   pose proof (map_length (skipn 6) (snd (last o2 ([], [])))) as Hl. rewrite D in Hl.
-  Show. rewrite <- Hl. apply rs_count.
+  etransitivity; [symmetry; exact Hl|apply rs_count].
 Qed.
 
 End Encoder.
